@@ -422,7 +422,7 @@ func main() {
 		"a_status_pattern":  "node i: i%3==2 not validated, i%4==3 validate-failed, else valid",
 		"deep_fork_heights": fmt.Sprintf("0..%d", F), "deep_branch_lengths": fmt.Sprintf("0..%d", L),
 		"b_max_blocks": K, "b_extra_family": "quick tier: plus the K+1-block configurations in which the invalid block has a descendant two levels below it and a competing branch exists", "b_configurations": len(cfgs),
-		"b_events":  "H_i = ProcessBlockHeader(header_i, BFNone, false), B_i = ProcessBlock(block_i, BFNone); H_i enabled once parent's header or block was delivered and neither H_i nor B_i was; B_i enabled once parent's block was delivered",
+		"b_events":  "H_i = ProcessBlockHeader(header_i, BFNone, false), B_i = ProcessBlock(block_i, BFNone); H_i enabled once parent's header or block was delivered and H_i was not (also after the node's own block); B_i enabled once parent's block was delivered",
 		"b_invalid": "one node whose coinbase overpays by 1 satoshi (found at connect time only), every node up to tree symmetry, or none",
 	})
 
